@@ -271,8 +271,10 @@ CHECKS = {
             T('MC_Wire', 'Wire.cfg', workers=4),
             C('wire', 'TestWire', 'TraceWire', n={'quick': 60, 'thorough': 800}, trivial_len=3),
             C('wirereal', 'TestWireReal', 'TraceWire', trivial_len=3),
+            C('wirenames', 'TestWireNames', 'TraceWire', trivial_len=0),
         ],
-        'assumptions': ASSUME_COMMON + ['gorilla/websocket (a dependency of mangos itself) is the independent WebSocket implementation'],
+        'assumptions': ASSUME_COMMON + ['gorilla/websocket (a dependency of mangos itself) is the independent WebSocket implementation',
+                                        'the SP protocol numbers are those of the table in spec/Wire.tla (SPNumber)'],
     },
     'C16': {
         'level': 'model_checking',
